@@ -34,6 +34,7 @@ type Gen struct {
 	keywordSet  []string
 	ninfo       map[string]*nodeInfo
 	sinfo       map[string]*structInfo
+	exprTypes   map[string]bool
 	positions   bool // ghost positions enabled
 	repo        string
 }
